@@ -7,7 +7,8 @@ Definition REG : registry := [([73;116;101;109], {| si_named := true; si_type :=
 Definition d_F05b : dcase := {| d_reg := REG; d_module := [[{| cr_code := (Num 200); cr_content := [{| c_media := [97;112;112;108;105;99;97;116;105;111;110;47;106;115;111;110]; c_type := (TLib [100;97;116;101;116;105;109;101]); c_binfmt := false |}] |}]]; d_op := 0%nat; d_resp := 0%nat; d_entry := (Some 0%nat) |}.
 Definition d_F05c : dcase := {| d_reg := REG; d_module := [[{| cr_code := (Num 200); cr_content := [{| c_media := [116;101;120;116;47;112;108;97;105;110]; c_type := (TPrim PStr); c_binfmt := false |}] |}]]; d_op := 0%nat; d_resp := 0%nat; d_entry := (Some 0%nat) |}.
 Definition d_F05e : dcase := {| d_reg := REG; d_module := [[{| cr_code := (Num 200); cr_content := [{| c_media := [97;112;112;108;105;99;97;116;105;111;110;47;106;115;111;110]; c_type := (TClass [73;116;101;109]); c_binfmt := false |}; {| c_media := [116;101;120;116;47;112;108;97;105;110]; c_type := (TPrim PStr); c_binfmt := false |}] |}]]; d_op := 0%nat; d_resp := 0%nat; d_entry := (Some 0%nat) |}.
-Definition d_F05f : dcase := {| d_reg := REG; d_module := [[{| cr_code := (Num 200); cr_content := [{| c_media := [97;112;112;108;105;99;97;116;105;111;110;47;120;45;110;100;106;115;111;110]; c_type := (TClass [73;116;101;109]); c_binfmt := false |}] |}]]; d_op := 0%nat; d_resp := 0%nat; d_entry := (Some 0%nat) |}.
+Definition d_F05f_ndjson : dcase := {| d_reg := REG; d_module := [[{| cr_code := (Num 200); cr_content := [{| c_media := [97;112;112;108;105;99;97;116;105;111;110;47;120;45;110;100;106;115;111;110]; c_type := (TClass [73;116;101;109]); c_binfmt := false |}] |}]]; d_op := 0%nat; d_resp := 0%nat; d_entry := (Some 0%nat) |}.
+Definition d_F05f : dcase := {| d_reg := REG; d_module := [[{| cr_code := (Num 200); cr_content := [{| c_media := [97;112;112;108;105;99;97;116;105;111;110;47;106;115;111;110;45;115;101;113]; c_type := (TClass [73;116;101;109]); c_binfmt := false |}] |}]]; d_op := 0%nat; d_resp := 0%nat; d_entry := (Some 0%nat) |}.
 Definition d_F05g : dcase := {| d_reg := REG; d_module := [[{| cr_code := (Other [50;88;88]); cr_content := [{| c_media := [97;112;112;108;105;99;97;116;105;111;110;47;106;115;111;110]; c_type := (TClass [73;116;101;109]); c_binfmt := false |}] |}]]; d_op := 0%nat; d_resp := 0%nat; d_entry := (Some 0%nat) |}.
 Definition d_F05h : dcase := {| d_reg := REG; d_module := [[{| cr_code := (Num 200); cr_content := [{| c_media := [116;101;120;116;47;101;118;101;110;116;45;115;116;114;101;97;109]; c_type := (TClass [73;116;101;109]); c_binfmt := false |}] |}; {| cr_code := (Num 202); cr_content := [] |}]]; d_op := 0%nat; d_resp := 0%nat; d_entry := (Some 0%nat) |}.
 Definition d_F05i : dcase := {| d_reg := REG; d_module := [[{| cr_code := (Num 200); cr_content := [{| c_media := [97;112;112;108;105;99;97;116;105;111;110;47;106;115;111;110]; c_type := (TClass [73;116;101;109]); c_binfmt := false |}] |}; {| cr_code := (Num 201); cr_content := [{| c_media := [97;112;112;108;105;99;97;116;105;111;110;47;106;115;111;110]; c_type := (TClass [67;97;116]); c_binfmt := false |}] |}]]; d_op := 0%nat; d_resp := 1%nat; d_entry := (Some 0%nat) |}.
@@ -26,6 +27,11 @@ Proof. repeat split; vm_compute; reflexivity. Qed.
 Theorem refuted_F05c : guard_bits d_F05c = [true; false; true; true]
   /\ the_path d_F05c = PCast /\ the_want d_F05c = WText /\ C05_holds d_F05c = false.
 Proof. repeat split; vm_compute; reflexivity. Qed.
+(* F05f fixed for application/x-ndjson: read with iter_ndjson, one (structured) item per line *)
+Example fixed_F05f_ndjson : c05_guard d_F05f_ndjson = true /\ the_path d_F05f_ndjson = PStreamNdjson true
+  /\ the_want d_F05f_ndjson = WStreamLines /\ the_imported d_F05f_ndjson = true /\ C05_holds d_F05f_ndjson = true.
+Proof. repeat split; vm_compute; reflexivity. Qed.
+(* still open for the other record formats (json-seq, multipart/mixed) *)
 Theorem refuted_F05f : guard_bits d_F05f = [true; true; false; true]
   /\ the_path d_F05f = PStreamSse /\ the_want d_F05f = WStreamItems /\ C05_holds d_F05f = false.
 Proof. repeat split; vm_compute; reflexivity. Qed.
@@ -86,13 +92,13 @@ Proof. intros reg t imported Hn Hs. unfold json_path, want_json. rewrite Hs, Hn.
 (* T3/T4: which branch handles a status *)
 Lemma handle_primary : forall reg o r n ct,
   cprocessed o = Some (r, n) ->
-  handle reg o n ct = if is_none_ret (resolve o) then PNone else strategy_path reg (resolve o) ct.
+  handle reg o n ct = if is_none_ret (resolve o) then PNone else strategy_path reg (nd_of o) (resolve o) ct.
 Proof. intros reg o r n ct H. unfold handle. rewrite H, N.eqb_refl. reflexivity. Qed.
 
 Lemma handle_secondary : forall reg o p n r m ct,
   cprocessed o = Some (p, n) -> m <> n ->
   find_status m (cothers o) = Some r -> lead2 m = true ->
-  handle reg o m ct = secondary_path reg (resolve o) ct r.
+  handle reg o m ct = secondary_path reg (nd_of o) (resolve o) ct r.
 Proof.
   intros reg o p n r m ct Hp Hne Hf Hl. unfold handle. rewrite Hp.
   replace (n =? m) with false by (symmetry; apply N.eqb_neq; congruence).
@@ -106,7 +112,7 @@ Qed.
 Lemma handle_wildcard_primary : forall reg o w st ct,
   cprocessed o = None -> find_status st (cothers o) = None ->
   wildcard_resp o = Some w -> is_strategy_resp o w = true -> 200 <= st < 300 ->
-  handle reg o st ct = if is_none_ret (resolve o) then PNone else strategy_path reg (resolve o) ct.
+  handle reg o st ct = if is_none_ret (resolve o) then PNone else strategy_path reg (nd_of o) (resolve o) ct.
 Proof.
   intros reg o w st ct Hp Hf Hw Hs Hr. unfold handle. rewrite Hp, Hf, Hw, Hs.
   replace (in_range wildcard_lo wildcard_hi st) with true
@@ -221,7 +227,8 @@ Proof.
   assert (Hr : resolve o = resolve_streaming r).
   { unfold resolve. rewrite Hprim. destruct (cr_content r) as [|e [|e2 rest]]; [congruence| |]; rewrite Hs; reflexivity. }
   assert (Hh : handle reg o n ct = PStreamSse).
-  { rewrite (handle_primary _ _ _ _ _ Hp), Hr. unfold resolve_streaming. rewrite Hb, He. reflexivity. }
+  { assert (Hnd : nd_of o = false) by (unfold nd_of, is_ndjson_resp; rewrite Hprim, He; apply andb_false_r).
+    rewrite (handle_primary _ _ _ _ _ Hp), Hr, Hnd. unfold resolve_streaming. rewrite Hb, He. reflexivity. }
   split; [exact Hh|]. intro e. rewrite Hh. unfold ideal. rewrite Hs, Hb, Hf, He. reflexivity.
 Qed.
 
